@@ -120,7 +120,7 @@ def do_write(root, sc, frame, offs, append, rec=None):
         else:
             target = root
         write(target, to_df(frame, sc["columns"]), file_scheme="hive", partition_on=list(sc["partition_on"]),
-              row_group_offsets=list(offs), append=append, compression=sc["compression"], stats=sc["stats"], **kw)
+              row_group_offsets=(list(offs) if offs is not None else None), append=append, compression=sc["compression"], stats=sc["stats"], **kw)
     finally:
         os.chdir(cwd)
 
@@ -212,7 +212,7 @@ def run_scenario(arg):
         pristine, work, alone = (os.path.join(base, x) for x in ("pristine", "work", "alone"))
         os.makedirs(base)
         if sc.get("empty_base") == "zero_frame":
-            do_write(pristine, sc, {c: [] for c in sc["columns"]}, [0], False)
+            do_write(pristine, sc, {c: [] for c in sc["columns"]}, None, False)      # (0 rows with explicit offsets [0] crash the unchanged tree's write_multi: notes)
         else:
             do_write(pristine, sc, sc["frame0"], sc["offsets0"], False)
             if sc.get("empty_base") == "emptied":
